@@ -6,14 +6,14 @@ from . import chainrun
 #       8 history_lookup 9 holding 10 address_transactions 11 pn_winners 12 pn_grade 13 synced 14 sync_version
 TABLE = {
     # id: (scenarios quick, extra scenarios thorough, tags, functional, what)
-    "C03": (["eras", "bankmixed", "corners"], ["bank", "staking", "dups", "admission"], [1, 6], False, "balances and batch status"),
+    "C03": (["eras", "bankmixed", "corners", "bank"], ["staking", "dups", "admission"], [1, 6], False, "balances and batch status"),
     "C04": (["eras", "bank", "zeroing", "corners", "align"], ["staking", "rates", "admission"], [1], True, "balances (per-asset supply is their column sum)"),
     "C06": (["dups", "corners", "gaps"], ["eras", "bank"], [1, 6, 9, 10], True, "balances, batch status, holding and relation rows"),
     "C07": (["gaps", "corners"], ["eras", "admission", "bank", "avgzero"], [1, 6, 7, 9], True, "balances, execution height and converted amounts"),
     "C08": (["malformed", "dups", "corners"], ["eras", "top100", "zerocollide", "bankmixed"], [13, 14], False, "which blocks apply"),
     "C09": (["gaps"], ["eras", "admission", "avgzero"], [1, 6, 7], True, "balances and converted amounts (pricing)"),
     "C11": (["eras", "corners"], ["top100", "rates", "staking", "zeroing"], [1, 6, 7, 11, 12], True, "PEG/pFCT balances, coinbase and burn history, pn_winners, pn_grade"),
-    "C12": (["rates", "corners"], ["eras", "gaps", "staking"], [4, 6], True, "pn_rate rows and batch status"),
+    "C12": (["rates", "corners", "eras"], ["gaps", "staking"], [4, 6], True, "pn_rate rows and batch status"),
     "C13": (["admission", "corners", "avgzero"], ["eras", "rates"], [1, 6], True, "balances and executed codes"),
     "C14": (["staking"], ["eras", "zerocollide"], [1, 2, 3, 6, 7], True, "balances, snapshots and staking coinbase rows"),
     "C15": (["align", "zeroing"], ["eras", "staking", "zerocollide"], [1, 6, 7], True, "balances of the listed addresses and coinbase rows"),
